@@ -45,6 +45,10 @@ func runC01(p *core.Program, r *core.Report) {
 	c01R2(p, r, w, parse[0], fileV, fsetV)
 	c01R3(p, r, w)
 	c01R4(p, r, w, parse[0])
+	c01R5(p, r, pl)
+	// R6: "declares the target package's own name": the file is written into the directory of the package it was
+	// rendered for, which the writer takes from Package.SourceDir()
+	chainRules(p, r, "R6", "C13", []string{"C13.R6"}, "the directory a file is written to is the processed package's own")
 }
 
 func c01R1(p *core.Program, r *core.Report, w *core.Func, parse *ast.CallExpr, fileV, fsetV *types.Var) {
@@ -535,4 +539,278 @@ func c01R4(p *core.Program, r *core.Report, w *core.Func, parse *ast.CallExpr) {
 		r.Check(ok && len(f.Body.List) == 1, rule, f, name+" forwards to the context's own file", f.Node().Pos(), "c.genfile.Render(...)", name+" does not simply forward to c.genfile.Render")
 	}
 	_ = parse
+}
+
+// writeSites: the calls of the file writer inside the per-package function, each with the loop that feeds it and
+// the container that loop ranges over.
+type writeSite struct {
+	Call      *ast.CallExpr
+	Loop      *ast.RangeStmt
+	Container *types.Var
+}
+
+func writeSitesOf(p *core.Program, pl *pipeline) []writeSite {
+	f := pl.pkgExec
+	info := f.Info()
+	wobj := pl.write.Obj()
+	if pl.write.Origin != nil {
+		wobj = pl.write.Origin.Obj()
+	}
+	var out []writeSite
+	for _, c := range core.Calls(f.Body, true) {
+		if wobj == nil || core.CalleeFunc(info, c) != wobj {
+			continue
+		}
+		ws := writeSite{Call: c}
+		path := core.PathTo(f.Body, c)
+		for k := len(path) - 1; k >= 0; k-- {
+			if rs, ok := path[k].(*ast.RangeStmt); ok {
+				ws.Loop = rs
+				e := ast.Unparen(rs.X)
+				for {
+					switch x := e.(type) {
+					case *ast.SelectorExpr:
+						// m.Range of a sync.Map (range over func) or a field
+						if fn, isFn := info.ObjectOf(x.Sel).(*types.Func); isFn && fn.Name() == "Range" {
+							e = ast.Unparen(x.X)
+							continue
+						}
+					case *ast.CallExpr:
+						if len(x.Args) == 1 { // maps.Values(m), slices.Values(s)
+							e = ast.Unparen(x.Args[0])
+							continue
+						}
+					case *ast.UnaryExpr:
+						e = ast.Unparen(x.X)
+						continue
+					}
+					break
+				}
+				ws.Container = core.CanonVarOf(info, f.Body, e)
+				if ws.Container == nil {
+					if fld := core.FieldOf(info, e); fld != nil {
+						ws.Container = fld
+					}
+				}
+				break
+			}
+		}
+		out = append(out, ws)
+	}
+	return out
+}
+
+// fileEmptyTests: the functions of pkg/gengo whose result `true` implies that the file's body is empty: the file
+// type's own test (a method whose only statement returns a condition over the body buffer - nil or Len() == 0), and
+// functions returning a conjunction that contains such a test.
+func fileEmptyTests(p *core.Program) map[*types.Func]bool {
+	out := map[*types.Func]bool{}
+	for round := 0; round < 3; round++ {
+		for _, f := range p.Funcs() {
+			if core.RelPkg(f.Pkg.PkgPath) != "pkg/gengo" || f.Decl == nil || f.Obj() == nil || out[f.Obj()] {
+				continue
+			}
+			ret := singleReturn(f)
+			if ret == nil || f.Decl.Type.Results == nil || len(f.Decl.Type.Results.List) != 1 || !isBasicKind(f.Info().TypeOf(f.Decl.Type.Results.List[0].Type), types.Bool) {
+				continue
+			}
+			info := f.Info()
+			// the base test: a disjunction whose every operand looks at the body buffer only, one of them Len() == 0
+			onlyBody, hasLen := true, false
+			var walk func(e ast.Expr)
+			walk = func(e ast.Expr) {
+				e = ast.Unparen(e)
+				if b, ok := e.(*ast.BinaryExpr); ok && b.Op == token.LOR {
+					walk(b.X)
+					walk(b.Y)
+					return
+				}
+				b, ok := e.(*ast.BinaryExpr)
+				if !ok || b.Op != token.EQL {
+					onlyBody = false
+					return
+				}
+				if id, isNil := ast.Unparen(b.Y).(*ast.Ident); isNil && id.Name == "nil" && isRole(p, core.FieldOf(info, b.X), "file.body") {
+					return
+				}
+				if k, isC := core.ConstInt(info, b.Y); isC && k == 0 {
+					if lc, isCall := ast.Unparen(b.X).(*ast.CallExpr); isCall && strings.HasSuffix(core.CalleeName(info, lc), ").Len") && isRole(p, core.FieldOf(info, recvOf(lc)), "file.body") {
+						hasLen = true
+						return
+					}
+				}
+				onlyBody = false
+			}
+			walk(ret)
+			if onlyBody && hasLen {
+				out[f.Obj()] = true
+				continue
+			}
+			// a conjunction containing a known test
+			for _, a := range cfgx.Atoms(ret, true) {
+				if c, ok := ast.Unparen(a.Cond).(*ast.CallExpr); ok && a.Val && out[core.CalleeFunc(info, c)] {
+					out[f.Obj()] = true
+				}
+			}
+		}
+	}
+	return out
+}
+
+// c01R5: "contains the declarations the generator rendered": in the loop over the generators, after the types were
+// dispatched, a file that is not empty is handed on to the writer on every path - the only way round the hand-over is
+// the edge on which the file is known to be empty - and the writer is called for every file handed on, unconditionally.
+func c01R5(p *core.Program, r *core.Report, pl *pipeline) {
+	const rule = "R5"
+	r.Floor(rule, 2)
+	f := pl.pkgExec
+	info := f.Info()
+	g := graph(f)
+	loop, _ := genLoop(pl)
+	var disp *ast.CallExpr
+	if pl.dispatch != nil {
+		for _, c := range core.Calls(f.Body, true) {
+			if core.CalleeFunc(info, c) == pl.dispatch.Obj() {
+				disp = c
+			}
+		}
+	}
+	sites := writeSitesOf(p, pl)
+	if loop == nil || disp == nil || len(sites) == 0 {
+		r.Anchor(rule, "generator loop, dispatch call and writer call of the per-package function")
+		return
+	}
+	empty := fileEmptyTests(p)
+	// hand-over: a node of the loop body that passes the context's file on (stores it in the queue / writes it)
+	isFileExpr := func(e ast.Expr) bool { return isRole(p, core.FieldOf(info, e), "ctx.genfile") }
+	handsOn := func(n ast.Node) bool {
+		hit := false
+		ast.Inspect(n, func(m ast.Node) bool {
+			if _, ok := m.(*ast.FuncLit); ok {
+				return false
+			}
+			switch x := m.(type) {
+			case *ast.CallExpr:
+				for _, a := range x.Args {
+					if isFileExpr(a) {
+						hit = true
+					}
+				}
+				for _, ws := range sites {
+					if ws.Call == x {
+						hit = true
+					}
+				}
+			case *ast.AssignStmt:
+				for i, l := range x.Lhs {
+					if _, isIx := ast.Unparen(l).(*ast.IndexExpr); isIx && i < len(x.Rhs) && isFileExpr(x.Rhs[i]) {
+						hit = true
+					}
+				}
+			}
+			return !hit
+		})
+		return hit
+	}
+	inLoop := func(n ast.Node) bool { return n != nil && loop.Body.Pos() <= n.Pos() && n.End() <= loop.Body.End() }
+	knownEmpty := func(b *cfgBlock, k int) bool {
+		if len(b.Succs) != 2 || len(b.Nodes) == 0 {
+			return false
+		}
+		e, ok := b.Nodes[len(b.Nodes)-1].(ast.Expr)
+		if !ok {
+			return false
+		}
+		for _, a := range cfgx.Atoms(e, k == 0) {
+			if c, ok := ast.Unparen(a.Cond).(*ast.CallExpr); ok && a.Val && empty[core.CalleeFunc(info, c)] {
+				return true
+			}
+		}
+		return false
+	}
+	tp, missed := g.Reach(g.PointOf(disp), false, cfgx.Query{
+		CutEdge: knownEmpty,
+		Target: func(q cfgx.Point) bool {
+			if q.B.Stmt == ast.Stmt(loop) && (q.B.Kind == kindRangeLoop || q.B.Kind == kindRangeDone) {
+				return true
+			}
+			if ret, ok := q.Node().(*ast.ReturnStmt); ok && len(ret.Results) == 1 {
+				if id, ok := ast.Unparen(ret.Results[0]).(*ast.Ident); ok && id.Name == "nil" {
+					return true
+				}
+			}
+			return false
+		},
+		Cut: func(q cfgx.Point) bool {
+			n := q.Node()
+			if n == nil {
+				return false
+			}
+			if inLoop(n) && handsOn(n) {
+				return true
+			}
+			if _, ok := n.(*ast.ReturnStmt); ok {
+				return true // an error return ends the run
+			}
+			return false
+		},
+	})
+	why := ""
+	if missed {
+		why = "after the types were dispatched the loop over the generators can move on without handing the file to the writer on a path where the file is not known to be empty"
+		if n := tp.Node(); n != nil {
+			why += " (reaching `" + core.ExprStr(n) + "`)"
+		}
+		why += ": what the generator rendered in this run is dropped and the file on disk keeps the previous run's declarations"
+	}
+	r.Check(!missed, rule, f, "a non-empty file is always handed to the writer", disp.Pos(), "every path from the dispatch to the next generator passes the hand-over or the edge on which the file is empty", why)
+	for _, ws := range sites {
+		bad := ""
+		for _, fct := range g.FactsAt(g.PointOf(ws.Call)) {
+			if fct.Cond.Pos() < loop.End() {
+				continue // decided before or while the generators ran: not about a file that was handed on
+			}
+			if v := core.VarOf(info, fct.Cond); v != nil && isBasicKind(v.Type(), types.Bool) {
+				if d, ok := core.SingleDef(info, f.Body, v); ok && d.Index == 1 {
+					continue // comma-ok of the conversion of the queued value
+				}
+			}
+			if b, ok := ast.Unparen(fct.Cond).(*ast.BinaryExpr); ok {
+				if v := core.VarOf(info, b.X); v != nil && isErrorType(v.Type()) {
+					continue
+				}
+			}
+			bad = core.ExprStr(fct.Cond)
+		}
+		r.Check(bad == "", rule, f, "every file handed on is written", ws.Call.Pos(), "the writer call is unconditional in the loop over the queue", "the writer is called only under `"+bad+"`: a rendered file can stay unwritten")
+	}
+}
+
+// c07R7 (shared anchor): the queue of files the per-package function writes is its own: a variable declared in the
+// function, filled in this call. A queue that lives longer (a field of the run's context, a package-level variable)
+// still holds the files of the packages processed before, and they are written again - into this package's directory.
+func c07R7(p *core.Program, r *core.Report, pl *pipeline) {
+	const rule = "R7"
+	r.Floor(rule, 1)
+	f := pl.pkgExec
+	info := f.Info()
+	sites := writeSitesOf(p, pl)
+	if len(sites) == 0 {
+		r.Anchor(rule, "call of the file writer in the per-package function")
+		return
+	}
+	for _, ws := range sites {
+		if ws.Loop == nil {
+			// written directly: the file must be the one of a context made in this function
+			r.OK(rule, f, "the file is written directly, without a queue", ws.Call.Pos(), "no container between rendering and writing")
+			continue
+		}
+		local := ws.Container != nil && !ws.Container.IsField() && core.DeclaredIn(info, f.Body, ws.Container)
+		what := "<unresolved>"
+		if ws.Container != nil {
+			what = ws.Container.Name()
+		}
+		r.Check(local, rule, f, "the queue of files to write belongs to this call", ws.Loop.Pos(), "the loop around the writer ranges over a variable declared in the function",
+			"the files written for a package are taken from `"+what+"`, which outlives the per-package call: files rendered for the packages processed before are written again, with this package's context, into this package's directory")
+	}
 }
